@@ -303,13 +303,69 @@ func (a *storedSetAnalysis) localStructFieldOrigin(fn *types.Func, sel *ast.Sele
 		cl, _ := e.(*ast.CompositeLit)
 		return cl
 	}
+	valueFn := map[ast.Expr]*types.Func{} // the function in whose body a collected value expression lives
+	var ctorLiteral func(rhs ast.Expr) (*ast.CompositeLit, *types.Func)
+	ctorLiteral = func(rhs ast.Expr) (*ast.CompositeLit, *types.Func) {
+		// a constructor of the same package: its result is a struct literal it builds itself (returned directly, or held
+		// in a local that is returned)
+		call, ok := ast.Unparen(rhs).(*ast.CallExpr)
+		if !ok {
+			return nil, nil
+		}
+		callee := calleeOf(info, call)
+		if callee == nil || callee.Pkg() != a.p.Types {
+			return nil, nil
+		}
+		cd := a.cg.Decl[callee.Origin()]
+		if cd == nil || cd.Body == nil {
+			return nil, nil
+		}
+		var lit *ast.CompositeLit
+		okAll := true
+		ast.Inspect(cd.Body, func(n ast.Node) bool {
+			switch x := n.(type) {
+			case *ast.FuncLit:
+				return false
+			case *ast.ReturnStmt:
+				if len(x.Results) != 1 {
+					okAll = false
+					return true
+				}
+				res := ast.Unparen(x.Results[0])
+				if id, isID := res.(*ast.Ident); isID {
+					res = ast.Unparen(resolveLocalCopy(info, cd.Body, id))
+				}
+				if cl := literalOf(res); cl != nil {
+					lit = cl
+				} else {
+					okAll = false
+				}
+			}
+			return true
+		})
+		if !okAll || lit == nil {
+			return nil, nil
+		}
+		return lit, callee.Origin()
+	}
 	consider := func(rhs ast.Expr) {
 		defs++
 		cl := literalOf(rhs)
+		owner := fn
+		if cl == nil {
+			cl, owner = ctorLiteral(rhs)
+		}
 		if cl == nil {
 			allLits = false
 			return
 		}
+		defer func() {
+			for _, v := range values {
+				if _, has := valueFn[v]; !has {
+					valueFn[v] = owner
+				}
+			}
+		}()
 		for _, el := range cl.Elts {
 			if kv, ok := el.(*ast.KeyValueExpr); ok {
 				if k, ok := kv.Key.(*ast.Ident); ok && info.Uses[k] == fieldObj {
@@ -371,7 +427,11 @@ func (a *storedSetAnalysis) localStructFieldOrigin(fn *types.Func, sel *ast.Sele
 		return "", false
 	}
 	for _, val := range values {
-		if d := a.origin(fn, val, depth+1, seen); d != "" {
+		in := fn
+		if vf := valueFn[val]; vf != nil {
+			in = vf
+		}
+		if d := a.origin(in, val, depth+1, seen); d != "" {
 			return d, true
 		}
 	}
